@@ -30,10 +30,14 @@ def make_case(seed, i, tier):
     prof = {"maxlength": rng.choice([12, 20, 40, 200])}
     if rng.random() < 0.5:
         prof["workers_choices"] = [99]       # clipped to ensembles-1: the bound of check_config
+    deep = i % 4 == 3
+    if deep:
+        # long histories of larger systems with many workers: late symptoms of an earlier wrong move
+        prof.update(n_intf_choices=[5, 6, 8], steps_choices=[60, 100], workers_choices=[3, 4, 99])
     scn = SC.gen_scenario(rng, prof)
     kind = rng.choice(["single", "single", "clean_chain", "crash_chain", "mixed"])
     scn["plan"] = C.gen_plan(rng, scn, kind)
-    return {"seed": seed, "scn": scn, "props": [PROP], "load_p": rng.choice([0.1, 0.3, 1.0])}
+    return {"seed": seed, "scn": scn, "props": [PROP], "load_p": 0.05 if deep else rng.choice([0.1, 0.3, 1.0])}
 
 
 class DeathMonitor(SS.Monitor):
